@@ -30,7 +30,7 @@ def universe() -> list:
     u += common.fx_cases()
     u += common.mx_cases(2)
     u += common.jj_cases(3000, "hostile", FOUR)
-    u += common.jj_cases(1500, "lintable", FOUR)
+    u += common.jj_cases(1500, "lintable", FOUR) + common.jj_cases(160, "loopsep", FOUR)
     u += common.py_cases(800) + common.py_cases(300, True)
     u += common.ph_cases(800) + common.ph_cases(300, True)
     return u
